@@ -112,7 +112,7 @@ def run(ctx: Ctx) -> None:
             ok = True
             wit: List[str] = []
             if isinstance(v, ast.Name):
-                defs = fl.defs_of_use(v)
+                defs = fl.root_defs(v)
                 for d in defs:
                     if not (d.kind == "assign" and d.value in ucs):
                         ok = False
